@@ -559,6 +559,9 @@ _U = "(u8|u16|u32|u64|usize)"
 _INT_TRY = re.compile(r"^<%s as std::convert::TryFrom<%s>>::try_from$|^<%s as std::convert::TryInto<%s>>::try_into$|^std::convert::num::<impl std::convert::TryFrom<%s> for %s>::try_from$" % (_U, _U, _U, _U, _U, _U))
 
 
+_KNOWN_TRAITS = {}
+
+
 def known_fns(crate_name):
     """Functions that existed when the rules were written (refs/known_fns.json); they are the rules' vocabulary."""
     global _KNOWN
@@ -690,6 +693,13 @@ class Interp:
             return None
         tr_path, _, leaf = item.rpartition("::")
         if tr_path not in self.crate.trait_paths():
+            return None
+        # a trait the reference tree already has (PublicKeyData, SigningKey, ..) is part of the rules' vocabulary:
+        # `Trait::item(x)` stays symbolic whether the caller reaches it through `impl Trait` or a named parameter
+        kt_ = _KNOWN_TRAITS.get(self.crate.name)
+        if kt_ is None:
+            kt_ = _KNOWN_TRAITS[self.crate.name] = {m_.group(1) for k in known_fns(self.crate.name) for m_ in [re.search(r" as ([\w:]+)>::", k)] if m_}
+        if tr_path in kt_:
             return None
         ta = n.get("targs")
         t0 = ta[0] if ta else ((n.get("recv") or {}).get("aty") or (n.get("recv") or {}).get("ty"))
